@@ -641,6 +641,63 @@ theorem removeType_data_le (t : Nat) (bs : List LBlock) :
     · simp [dataOf, List.flatMap_cons]
     · simp only [dataOf, List.flatMap_cons, List.length_append] at ih ⊢; omega
 
+/-- a table without a hole: live entries first, then only unused ones -/
+def NoHole (es : List Entry) : Prop := ∃ a f, es = a ++ f ∧ (∀ e ∈ a, e.typ ≠ 0) ∧ (∀ e ∈ f, e.typ = 0)
+
+theorem eraseFirst_subset (p : Entry → Bool) (es : List Entry) : ∀ e ∈ eraseFirst p es, e ∈ es := by
+  induction es with
+  | nil => simp [eraseFirst]
+  | cons x xs ih =>
+    intro e he
+    unfold eraseFirst at he
+    split at he
+    · exact List.mem_cons_of_mem _ he
+    · rcases List.mem_cons.mp he with rfl | he
+      · simp
+      · exact List.mem_cons_of_mem _ (ih e he)
+
+theorem noHole_eraseFirst (p : Entry → Bool) (es : List Entry) (h : NoHole es) : NoHole (eraseFirst p es) := by
+  obtain ⟨a, f, rfl, ha, hf⟩ := h
+  induction a with
+  | nil =>
+    exact ⟨[], eraseFirst p f, by simp, by simp, fun e he => hf e (eraseFirst_subset p f e (by simpa using he))⟩
+  | cons x a' ih =>
+    simp only [List.cons_append]
+    unfold eraseFirst
+    split
+    · exact ⟨a', f, rfl, fun e he => ha e (List.mem_cons_of_mem _ he), hf⟩
+    · obtain ⟨a'', f'', h1, h2, h3⟩ := ih (fun e he => ha e (List.mem_cons_of_mem _ he))
+      refine ⟨x :: a'', f'', by simp [h1], ?_, h3⟩
+      intro e he
+      rcases List.mem_cons.mp he with rfl | he
+      · exact ha _ (by simp)
+      · exact h2 e he
+
+theorem holeIn_of_noHole (es : List Entry) (h : NoHole es) : holeIn es = false := by
+  obtain ⟨a, f, rfl, ha, hf⟩ := h
+  unfold holeIn firstUnused
+  rw [findIdxBy_append_left _ _ _ (by intro e he; simp [ha e he])]
+  cases f with
+  | nil => simp [findIdxBy]
+  | cons x f' =>
+    have hx : x.typ = 0 := hf x (by simp)
+    simp only [findIdxBy, hx, beq_self_eq_true, if_true, Option.map_some, Nat.zero_add]
+    have : (a ++ x :: f').drop (a.length + 1) = f' := by
+      have e1 : a ++ x :: f' = (a ++ [x]) ++ f' := by simp
+      have e2 : (a ++ [x]).length = a.length + 1 := by simp
+      rw [e1, ← e2, List.drop_left]
+    rw [this]
+    apply List.any_eq_false.mpr
+    intro e he
+    simp [hf e (List.mem_cons_of_mem _ he)]
+
+theorem noHole_table (l : Lay) (ok : l.Ok) : NoHole l.table := by
+  refine ⟨liveEntries (tableStart l.n) l.bs, freeEntries l.eod l.fs, rfl, ?_, ?_⟩
+  · intro e he
+    obtain ⟨b, hb, ht⟩ := liveEntries_typ _ _ e he
+    rw [ht]; exact ok.live b hb
+  · intro e he; exact freeEntries_typ _ _ e he
+
 theorem replace_step (l : Lay) (ok : l.Ok) (b : BlkArg) (c : Option Str) (now : Int) (ha : ArgOk l b)
     (hnow : inI32 now = true) :
     replaceBlock l.state b c now = ((l.specStep (.replace b c now)).1.state, (l.specStep (.replace b c now)).2)
@@ -683,10 +740,12 @@ theorem replace_step (l : Lay) (ok : l.Ok) (b : BlkArg) (c : Option Str) (now : 
       have hadd := add_sim (l.remove b.typ now) hrem.2 b (c.getD x.comment) now pl (by simp [Lay.remove]) hno ha.typ hc
         (ha.honest pl (checkArg_payload b _ now pl hc)) hfit
       refine ⟨?_, hadd.2⟩
+      have hnohole : holeIn (eraseFirst (fun e => e.typ == b.typ) l.table) = false :=
+        holeIn_of_noHole _ (noHole_eraseFirst _ _ (noHole_table l ok))
       unfold replaceBlock
       simp only [Lay.state]
-      simp only [Lay.table] at ho ⊢
-      rw [ho]; simp only [hcom, hc]
+      simp only [Lay.table] at ho hnohole ⊢
+      rw [ho]; simp only [hcom, hc, hnohole, Bool.false_eq_true, if_false]
       have hr := hrem.1
       simp only [Lay.state, Lay.table] at hr
       rw [hr]
